@@ -366,7 +366,12 @@ func ruleNS2(c *Ctx) {
 				continue
 			}
 			if onDecoder {
-				continue // NS-1
+				// NS-1 covers the replacement check; for a Go map that check is the lookup in the map, which only
+				// works for key kinds with one representation per value (a fresh pointer key never compares equal)
+				if len(callsMethodNamed(info, f.Body(), "SetMapIndex")) > 0 {
+					c.Violation("map-guard-missing:"+f.Name, site.Pos(), "the decoder's namespace is disabled for a Go map without the mapKeyWithUniqueRepresentation guard: for pointer, float or interface keys two equal names produce distinct Go keys, the map lookup does not see the repeat and nothing rejects the duplicate")
+				}
+				continue
 			}
 			nEnc++
 			// any-map form: dominated by !AllowInvalidUTF8
